@@ -415,5 +415,5 @@ func gen(r *hv.Rng, i int, tier string) (string, hv.Val) {
 }
 
 func main() {
-	hv.Main(&hv.Spec{Prop: "C10", Gen: gen, Impl: impl, Setup: setup, NQuick: 3000, NThorough: 100000})
+	hv.Main(&hv.Spec{Prop: "C10", Gen: gen, Impl: impl, Setup: setup, NQuick: 2500, NThorough: 100000})
 }
